@@ -156,6 +156,12 @@ insert, and the table delete precedes the drain in unregisterProcess — the sha
 theorem C04_code_shape : Gen.LinkRace.recheckAfterAdd = true ∧ Gen.LinkRace.deleteBeforeDrain = true ∧
     Gen.LinkRace.lookups.length = 8 ∧ (∀ e ∈ Gen.LinkRace.lookups, e.2 = 2) := by decide
 
+/-- … and at every site where a target disappears — the four kinds of identifiers in unregisterProcess, UnregisterName,
+DeleteAlias, UnregisterEvent — the table entry is removed before the relations on the target are drained (the
+terminator of `Race`: `delete`, then `drain`) -/
+theorem C04_code_shape_sites : Gen.LinkRace.drainOrder.length = 7 ∧ (∀ e ∈ Gen.LinkRace.drainOrder, e.2 = true) := by
+  decide
+
 /-- non-vacuity: a history with two holders of different kinds and an unrelated process -/
 example :
     let p (i : Nat) : Pid := ⟨0, i, 1⟩
